@@ -30,6 +30,13 @@ trait Codec<'a> {
     /// anchored input read into `other` (an arena the codec does not own)
     fn feed_from(&mut self, other: &mut ByteArena, d: &[u8]) -> Result<(), String>;
     fn finish(self) -> Result<OwningIovec<'a>, String>;
+    /// Decoder::take_iovec: give up mid-stream, keep what was decoded so far
+    fn take_iovec(self) -> Result<OwningIovec<'a>, String>
+    where
+        Self: Sized,
+    {
+        Err("harness: this codec has no take_iovec".into())
+    }
 }
 
 fn estr<E: std::fmt::Debug>(e: E) -> String {
@@ -85,7 +92,7 @@ impl_encoder!(LimitEncoder<'a>, |this: &mut LimitEncoder<'a>, d: &[u8]| -> Resul
 });
 
 macro_rules! impl_decoder {
-    ($t:ty, $read:expr) => {
+    ($t:ty, $read:expr, $take:expr) => {
         impl<'a> Codec<'a> for $t {
             fn consumer(&mut self) -> ConsumingIovec<'_> {
                 <$t>::consumer(self)
@@ -113,16 +120,23 @@ macro_rules! impl_decoder {
             fn finish(self) -> Result<OwningIovec<'a>, String> {
                 <$t>::finish(self).map_err(estr)
             }
+            fn take_iovec(self) -> Result<OwningIovec<'a>, String> {
+                $take(self)
+            }
         }
     };
 }
 
-impl_decoder!(Decoder<'a>, |this: &mut Decoder<'a>, d: &[u8]| -> Result<(), String> {
-    this.decode_read(d, d.len(), NonZeroUsize::MAX).map(|_| ()).map_err(estr)
-});
-impl_decoder!(LimitDecoder<'a>, |this: &mut LimitDecoder<'a>, d: &[u8]| -> Result<(), String> {
-    this.feed_anchored(d)
-});
+impl_decoder!(
+    Decoder<'a>,
+    |this: &mut Decoder<'a>, d: &[u8]| -> Result<(), String> { this.decode_read(d, d.len(), NonZeroUsize::MAX).map(|_| ()).map_err(estr) },
+    |this: Decoder<'a>| -> Result<OwningIovec<'a>, String> { Ok(this.take_iovec()) }
+);
+impl_decoder!(
+    LimitDecoder<'a>,
+    |this: &mut LimitDecoder<'a>, d: &[u8]| -> Result<(), String> { this.feed_anchored(d) },
+    |_this: LimitDecoder<'a>| -> Result<OwningIovec<'a>, String> { Err("harness: LimitDecoder has no take_iovec".into()) }
+);
 
 fn bytes_of(v: &Value) -> Vec<u8> {
     v.as_array().map(|a| a.iter().map(|x| x.as_u64().unwrap() as u8).collect()).unwrap_or_default()
@@ -141,6 +155,8 @@ struct Obs {
 thread_local! {
     /// address range of the buffer the harness lends to the codec in the current phase
     static LENT: std::cell::Cell<(usize, usize)> = const { std::cell::Cell::new((0, 0)) };
+    /// ... and of the bytes lent to the pre-populated OwningIovec of the run
+    static LENT_PRE: std::cell::Cell<(usize, usize)> = const { std::cell::Cell::new((0, 0)) };
 }
 
 /// Is [addr, addr+len) inside a live arena chunk (registry of hook H2) or the lent input buffer?
@@ -149,6 +165,10 @@ fn is_live(addr: usize, len: usize, chunks: &[(u64, usize, usize)]) -> bool {
         return true;
     }
     let (b, l) = LENT.with(|c| c.get());
+    if addr >= b && addr + len <= b + l {
+        return true;
+    }
+    let (b, l) = LENT_PRE.with(|c| c.get());
     if addr >= b && addr + len <= b + l {
         return true;
     }
@@ -205,7 +225,7 @@ fn run_phase<'a, C: Codec<'a>>(
         e.insert("run".into(), json!(run));
         e.insert("ev".into(), json!(ev));
         e.insert("ph".into(), json!(phase));
-        if (ev == "drop_shared" || ev == "finish") && shared.take().is_some() {
+        if (ev == "drop_shared" || ev == "finish" || ev == "take_iovec") && shared.take().is_some() {
             // the producer's arena is gone: everything buffered must still be backed
             let mut e2 = Map::new();
             e2.insert("run".into(), json!(run));
@@ -377,10 +397,10 @@ fn run_phase<'a, C: Codec<'a>>(
                 out.emit(&Value::Object(e));
             }
             "drop_shared" => {}
-            "finish" => {
-                // whatever input was not fed yet is fed now, by copy, so that the run is complete
+            "finish" | "take_iovec" => {
+                let take = ev == "take_iovec";
                 let r = guarded(move || {
-                    let fin = c.finish();
+                    let fin = if take { c.take_iovec() } else { c.finish() };
                     fin.map(|iov| {
                         let pending = iov.has_pending_backrefs();
                         let rest = match iov.flatten() {
@@ -424,13 +444,27 @@ pub fn drive_codec(ops: &str, trace: &str) {
         let prod = run.cfg["prod"].as_bool().unwrap_or(false);
         let full = run.cfg["full"].as_bool().unwrap_or(true);
         let input = bytes_of(&run.cfg["input"]);
-        out.emit(&json!({"run":run.run,"ev":"reset","kind":kind,"l1":l1,"l2":l2,"prod":prod as u8,
+        // "pre": bytes already in the OwningIovec handed to Encoder/Decoder::new_from_iovec (production codec only)
+        let pre = bytes_of(&run.cfg["pre"]);
+        let pre_borrow = run.cfg["pre_m"].as_str() == Some("borrow");
+        LENT_PRE.with(|c| c.set((pre.as_ptr() as usize, pre.len())));
+        fn with_pre(pre: &[u8], borrow: bool) -> OwningIovec<'_> {
+            let mut iov = OwningIovec::new();
+            if borrow {
+                iov.push_borrowed(pre);
+            } else {
+                iov.push_copy(pre);
+            }
+            iov
+        }
+        out.emit(&json!({"run":run.run,"ev":"reset","kind":kind,"l1":l1,"l2":l2,"prod":prod as u8,"pre":pre,
                          "iid":run.cfg["iid"].as_i64().unwrap_or(0),"input":input,
                          "live":ByteArena::num_live_bytes(),"chunks":ByteArena::num_live_chunks()}));
         let mut it = run.ops.iter();
         let encoded: Option<Vec<u8>> = if kind == "enc" || kind == "rt" {
             if prod {
-                run_phase(Encoder::new(), &input, &mut it, run.run, "enc", full, &mut out)
+                let enc = if pre.is_empty() { Encoder::new() } else { Encoder::new_from_iovec(with_pre(&pre, pre_borrow)) };
+                run_phase(enc, &input, &mut it, run.run, "enc", full, &mut out).map(|all| all[pre.len().min(all.len())..].to_vec())
             } else {
                 run_phase(LimitEncoder::new(l1, l2), &input, &mut it, run.run, "enc", full, &mut out)
             }
@@ -443,7 +477,8 @@ pub fn drive_codec(ops: &str, trace: &str) {
                     out.emit(&json!({"run":run.run,"ev":"switch","dinput":dinput}));
                 }
                 if prod {
-                    run_phase(Decoder::new(), &dinput, &mut it, run.run, "dec", full, &mut out);
+                    let dec = if pre.is_empty() { Decoder::new() } else { Decoder::new_from_iovec(with_pre(&pre, pre_borrow)) };
+                    run_phase(dec, &dinput, &mut it, run.run, "dec", full, &mut out);
                 } else {
                     run_phase(LimitDecoder::new(l1, l2), &dinput, &mut it, run.run, "dec", full, &mut out);
                 }
